@@ -1,8 +1,25 @@
-"""Table of registered checks; edited as checks are built (see tools_manifest.py)."""
+"""Table of registered checks (see tools_manifest.py): id -> (engine, level, technique, level text, level note)."""
 from tools_manifest import CHECKS as _BASE
 
 CHECKS = dict(_BASE)
-PENDING = {
-    k: "claimed in DESIGN.md but the check is not built yet in this commit (work in progress); not claimed until it runs clean"
-    for k in ["C07", "C16", "C17", "C18", "C19", "C20"]
-}
+CHECKS.update({
+    "C07": ("trainsim", "exploration", "real solve() (compiled and python-loop drivers, stop/resume segments) vs independent reference training loop",
+            "Every slot of the 9-tuple returned by solve (loss history, per-term histories, tracked histories, final parameters, optimizer state, advanced generator, loss object, validation outputs) is compared with an uncompiled-per-step reference loop over seeded training programs (6 equation kinds, 5 optimizers, auxiliary generators, tracked specs, 1-3 stop/resume segments with three resume modes), under the compiled lax.while_loop and under the python-loop driver with per-iteration carry observation.",
+            "float64 tolerance rtol 1e-8; w in {0,1} warm-up draws accepted; tiny MLPs and analytic equations; CPU only"),
+    "C16": ("trainsim", "exploration", "real solve() with RAR stepped per iteration (python-loop driver) vs integer schedule/capacity model; compiled driver cross-checked",
+            "After EVERY iteration of seeded refinement programs (4 generator/loss kinds, start 0..6 or beyond horizon, period 1-4, unequal time/space initial counts, ~40% capacity exhaustion) the step counter and the numbers of active time/space points are compared with an integer model; the compiled driver's final generator must be bit-identical to the stepped one's.",
+            "'active' = non-zero probability; 1-D PDE refinement raises on the pinned tree (outside supported space)"),
+    "C17": ("trainsim", "exploration", "real RAR steps observed through the guarded hook vs independent residual recomputation, top-k oracle and active-multiset conservation",
+            "For every refinement step of seeded programs: candidates in the domain, reported residuals equal residuals recomputed from the user equation with that iteration's parameters, selection is a top-k set of them, active multiset after = active before + selected, and the active multiset is conserved across all batch draws and reshuffles between steps.",
+            "needs JINNS_VERIF=1 hook (HARNESS-ERROR if absent); pre- or post-update parameters of the step's iteration both count as 'current'"),
+    "C18": ("trainsim", "fault_enumeration", "single NaN/Inf fault injected at every iteration x every origin of sampled programs; result vs reference loop with the NaN-abort rule",
+            "For each sampled program the fault is placed at EVERY iteration of the horizon, from EVERY origin (update/gradient of a network leaf or of an equation parameter through optax stages, loss value through a poisoned observation row or the equation's domain) and of both kinds (NaN, +Inf, the latter producing NaN one or more iterations later). Returned parameters, all histories up to the failing iteration, untouched later entries and the abort iteration are compared with the reference loop.",
+            "the failing iteration is whatever the reference observes; float64"),
+    "C19": ("trainsim", "exploration", "scripted validation stub (all 4-call scripts x 3 periods exhaustively) and built-in ValidationLoss vs reference loop + pure model of the bookkeeping",
+            "All 256 scripts of 4 validation outcomes over {improved?}x{stop?} for periods 1,2,3 are enumerated (exhaustive sub-space) with a stub whose criterion fingerprints the parameters it is given; seeded longer scripts and the built-in ValidationLoss (own generators, patience 0-3, early stopping on/off, exact ties, NaN criteria) are sampled. Checked: invocation iterations, post-update parameters, carried-forward criterion, stop right after the first request, best parameters = last improving invocation, strict-minimum / patience semantics.",
+            "built-in: discrete decisions are checked on the recorded criteria after those were validated numerically (tie-proof)"),
+    "C20": ("puritysim", "exploration", "seeded call orders (eager / jit / value_and_grad / get_batch) on shared objects with deep snapshots",
+            "Seeded sequences of evaluations and batch draws on the SAME objects for all 7 loss classes and all generator kinds, with deep snapshots (array bytes, structure, identity and contents of python containers) compared around every call, bit-identical repeats, numeric agreement of eager / jit / value_and_grad primal, and get_batch as a function of the generator state.",
+            "SystemLossODE with a parameter batch raises NameError (outside supported space)"),
+})
+PENDING = {}
